@@ -10,13 +10,13 @@ pub const ROUNDINGS: [RoundSeconds; 4] = [RoundSeconds::None, RoundSeconds::Norm
 pub fn judge(ctx: &Ctx, l: &mut Local, p: &Params, site: Site, date: NaiveDate, roundings: bool) {
     let mut p0 = p.clone();
     p0.round_seconds = RoundSeconds::None;
-    let r0 = prayer_times_dt(&p0, site.loc(), date, None);
+    let r0 = pt(&p0, site.loc(), date, None);
     l.evals += 1;
     let modes: &[RoundSeconds] = if roundings { &ROUNDINGS } else { &ROUNDINGS[..1] };
     for &mode in modes {
         let mut pm = p.clone();
         pm.round_seconds = mode;
-        let r = if mode == RoundSeconds::None { r0.clone() } else { l.evals += 1; prayer_times_dt(&pm, site.loc(), date, None) };
+        let r = if mode == RoundSeconds::None { r0.clone() } else { l.evals += 1; pt(&pm, site.loc(), date, None) };
         let case = || PtCase::new(&pm, site, date);
         if r.len() != 7 || SEQ7.iter().any(|k| !r.contains_key(k)) {
             ctx.violation("exactly_seven_entries", &case().key(), case().to_value(), json!({"result": fmt_r(&r)}));
